@@ -297,26 +297,64 @@ func monC03(x *Ctx) {
 }
 
 // nilEmbedClass names the input class relevant to panics: whether some
-// nullable embed of the root is nil.
+// nullable embed is nil in the value and, if so, whether that embed has
+// children that are collections or messages.
 func (x *Ctx) nilEmbedClass(p interface{}) string {
-	d := x.DumpStruct(p, dumpOpt{})
 	cls := "no-nil-embed"
-	var walk func(v interface{})
-	walk = func(v interface{}) {
-		switch t := v.(type) {
-		case map[string]interface{}:
-			for k, e := range t {
-				if len(k) > 6 && k[:6] == "embed:" && e == "nil" {
+	var walk func(mv reflect.Value, ms *spec.Msg)
+	walk = func(mv reflect.Value, ms *spec.Msg) {
+		for _, a := range ms.Attrs {
+			f, st := getField(mv, a)
+			if st == fEmbedNil {
+				if a.Kind != spec.KScalar && a.Kind != spec.KCustom {
+					cls = "nil-embed-with-collection-or-message-child"
+				} else if cls == "no-nil-embed" {
 					cls = "nil-embed"
 				}
-				walk(e)
+				continue
 			}
-		case []interface{}:
-			for _, e := range t {
-				walk(e)
+			if st != fOK || a.Msg == nil {
+				continue
+			}
+			switch a.Kind {
+			case spec.KObject:
+				if f.Kind() == reflect.Ptr {
+					if f.IsNil() {
+						continue
+					}
+					f = f.Elem()
+				}
+				walk(f, a.Msg)
+			case spec.KObjList:
+				for i := 0; i < f.Len(); i++ {
+					e := f.Index(i)
+					if e.Kind() == reflect.Ptr {
+						if e.IsNil() {
+							continue
+						}
+						e = e.Elem()
+					}
+					walk(e, a.Msg)
+				}
+			case spec.KObjMap:
+				it := f.MapRange()
+				for it.Next() {
+					e := it.Value()
+					if e.Kind() == reflect.Ptr {
+						if e.IsNil() {
+							continue
+						}
+						e = e.Elem()
+					} else {
+						c := reflect.New(e.Type()).Elem()
+						c.Set(e)
+						e = c
+					}
+					walk(e, a.Msg)
+				}
 			}
 		}
 	}
-	walk(d)
+	walk(reflect.ValueOf(p).Elem(), x.Root)
 	return cls
 }
